@@ -10,7 +10,9 @@ RULE = ("cases: ordered pairs (a, b) drawn from pools of real objects: capabilit
         "holds, for each cap, a separately constructed equal twin and a neighbour differing in one field, for mutable "
         "caps also RELATED caps (the derived read-only cap, the same keys in the other format, the same key with another "
         "fingerprint: same storage index, different string), and every "
-        "ordered pair of the pool (also a with itself, also across classes) is compared: a == b, a != b, hash(a) == hash(b). "
+        "ordered pair of the pool (also a with itself, also across classes) is compared: a == b, a != b, hash(a) == hash(b); "
+        "histories: a cap is hashed (used as dict key), then edited in place (or copied and the copy edited) field by "
+        "field, then compared with a fresh cap of the new value and with a twin of the old one, also under file nodes. "
         "distinct non-trivial = distinct ordered pairs (class and capability strings)")
 META = {
     "title": "Node and capability identity is consistent",
@@ -245,14 +247,117 @@ def nodes(ctx):
     ctx.trace(len(terms) - len(bad))
 
 
+def edit_in_place(cap, kind, is_dir, new_fields):
+    """Set the attributes behind the constructor arguments (as test code and repair tools do:
+    `u.key = ...`, `u.size = ...`); for a directory cap, on the wrapped file cap."""
+    target = cap.get_filenode_cap() if is_dir else cap
+    for attr, v in zip(U.FIELD_ATTRS[kind], new_fields):
+        setattr(target, attr, v)
+
+
+def hash_histories(ctx):
+    """hash(a) (as a dict / set key), then a is edited in place (or copied and the copy edited),
+    then compared and hashed again: at every moment objects that are equal -- by their CURRENT
+    capability string -- must hash equally, and equality must follow the current string."""
+    import copy
+    from allmydata.nodemaker import NodeMaker
+    ctx.correspondence("hash-after-edit-vs-model")
+    nm = NodeMaker(None, None, None, None, None, {"k": 3, "n": 10}, None, None)
+    preamble, terms, info = [], [], []
+    n = ctx.n(36, 360)
+    for i in range(n):
+        r = ctx.rng("hist", i)
+        kind = U.FILE_KINDS[i % 9]
+        is_dir = (i // 9) % 2 == 1
+        fields = small(U.gen_fields(r, kind), kind)
+        new_fields = vary(r, kind, fields)
+        how = ("edit", "copy-then-edit", "node-over-edited-cap")[(i // 18) % 3]
+        if how == "node-over-edited-cap" and (kind.endswith("Verifier") or (is_dir and False)):
+            how = "edit"
+        a = U.make_cap(kind, fields, is_dir)
+        twin_old = U.make_cap(kind, fields, is_dir)
+        seen = {a: "as dict key"}                      # hash(a) is taken here
+        h_before = hash(a)
+        if how == "copy-then-edit":
+            b = copy.copy(a)
+            if is_dir:
+                b._filenode_uri = copy.copy(a.get_filenode_cap())
+            edit_in_place(b, kind, is_dir, new_fields)
+            edited = b
+        else:
+            edit_in_place(a, kind, is_dir, new_fields)
+            edited = a
+        fresh = U.make_cap(kind, new_fields, is_dir)
+        case = {"history": how, "kind": kind, "dir": is_dir, "fields": U.jcase(fields), "new_fields": U.jcase(new_fields),
+                "fields_hex": [x.hex() if isinstance(x, bytes) else x for x in fields],
+                "new_fields_hex": [x.hex() if isinstance(x, bytes) else x for x in new_fields],
+                "string_after": U.show(edited.to_string())}
+        objs = [("edited", edited), ("fresh", fresh), ("twin_of_original", twin_old)]
+        if how == "node-over-edited-cap":
+            n1 = nm._create_from_single_cap(edited)
+            n2 = nm._create_from_single_cap(fresh)
+            if n1 is not None and type(n1).__name__ in ("ImmutableFileNode", "LiteralFileNode", "MutableFileNode"):
+                objs = [("node_over_edited", n1), ("node_over_fresh", n2)]
+        ctx.case((how, kind, is_dir, fields, new_fields), kind="hash-history:%s:%s" % (how, type(a).__name__))
+        if i < 2:
+            ctx.sample(case)
+        names = {}
+        for label, o in objs:
+            nm_ = "h%d_%s" % (i, label)
+            names[label] = nm_
+            if label.startswith("node"):
+                ctor = {"ImmutableFileNode": "NodeImmutable", "LiteralFileNode": "NodeLiteral", "MutableFileNode": "NodeMutable"}[type(o).__name__]
+                preamble.append("Definition %s : node := (%s %d {| co_id := %d; co_cap := %s |})." % (nm_, ctor, len(names), 50 + len(names), U.cap_term(U.describe(o.get_cap()))))
+            else:
+                preamble.append("Definition %s : capobj := {| co_id := %d; co_cap := %s |}." % (nm_, len(names), U.cap_term(U.describe(o))))
+        for la, oa in objs:
+            for lb, ob in objs:
+                sa = oa.get_uri() if la.startswith("node") else oa.to_string()
+                sb = ob.get_uri() if lb.startswith("node") else ob.to_string()
+                c2 = dict(case, a=la, b=lb)
+                res = compare(ctx, oa, ob, sa, sb, "hash-history", c2)
+                if res is None:
+                    continue
+                eq, ne, ha, hb = res
+                fn = ("node_eq", "node_ne", "node_hash") if la.startswith("node") else ("cap_eq", "cap_ne", "cap_hash")
+                terms.append("Bool.eqb (%s %s %s) %s && Bool.eqb (%s %s %s) %s && Bool.eqb (hkey_eqb (%s %s) (%s %s)) %s" % (
+                    fn[0], names[la], names[lb], T.boolean(eq), fn[1], names[la], names[lb], T.boolean(ne),
+                    fn[2], names[la], fn[2], names[lb], T.boolean(ha == hb)))
+                info.append(c2)
+        del seen
+    bad = ctx.coq_check(IMPORTS, terms, preamble="\n".join(preamble), tag="c43hist", shard=120)
+    for ix in bad:
+        ctx.mismatch("model-vs-impl:identity-after-edit", "Model and implementation differ on ==/!=/hash of %s vs %s after history '%s' over a %s" % (
+            info[ix]["a"], info[ix]["b"], info[ix]["history"], info[ix]["kind"]), case=info[ix], correspondence="hash-after-edit-vs-model")
+    ctx.trace(len(terms) - len(bad))
+
+
 def run(ctx):
     caps(ctx)
     nodes(ctx)
+    hash_histories(ctx)
 
 
 def replay(ctx, rec):
     """Rebuild the pool of the recorded round and re-evaluate the recorded pair class."""
     case = rec.get("case") or {}
+    if "history" in case:
+        import copy
+        kind, is_dir = case["kind"], case["dir"]
+        fields = tuple(bytes.fromhex(x) if isinstance(x, str) else x for x in case["fields_hex"])
+        new_fields = tuple(bytes.fromhex(x) if isinstance(x, str) else x for x in case["new_fields_hex"])
+        a = U.make_cap(kind, fields, is_dir)
+        h0 = hash(a)
+        edited = a
+        if case["history"] == "copy-then-edit":
+            edited = copy.copy(a)
+            if is_dir:
+                edited._filenode_uri = copy.copy(a.get_filenode_cap())
+        edit_in_place(edited, kind, is_dir, new_fields)
+        fresh = U.make_cap(kind, new_fields, is_dir)
+        res = compare(ctx, edited, fresh, edited.to_string(), fresh.to_string(), "replay", case)
+        return {"hash_before_edit": h0, "string_after_edit": U.show(edited.to_string()), "edited == fresh": res[0], "edited != fresh": res[1],
+                "hash(edited)": res[2], "hash(fresh)": res[3]}
     if "round" not in case:
         return {"note": "no pool round recorded"}
     from allmydata.nodemaker import NodeMaker
